@@ -24,6 +24,11 @@ OBS_HOOK = {"run_cell": "astVisit", "run_kbint": "astVisit", "run_sysexit": "ast
             "prun": "prun", "run_script": "safeExecfile", "complete": "globalMatches", "complete_attr": "attrMatches"}
 VIA_AST = {"run_cell", "run_kbint", "run_sysexit"}
 INTERRUPT_CLASS = {"run_kbint": "KeyboardInterrupt", "run_sysexit": "SystemExit"}
+# Tree-dependent facts found by probes in C14._ensure_ref (the reference machine and the model ops depend on them):
+#  sysexit_interrupts  _try_import lets SystemExit through (before 84ecc12 "an import that calls sys.exit() is a failed
+#                      import"); after it such a cell is an ordinary failed import: NameError as in plain IPython, nothing demanded
+#  embedded_fresh      embedded shells get a new importer per call (finding D3-embedded; repaired by fixes/C14-H3.diff)
+TREE = {"sysexit_interrupts": True, "embedded_fresh": True}
 
 JP_ORDER = [n for n, _ in gen_c14.JOINPOINTS]
 # snapshot keys of the hook lists a third party may rebind / extend
@@ -84,7 +89,7 @@ def model_ops(cfg, ops):
     db_ok = True
     inited = cfg != "preinit"
     for op in ops:
-        if cfg == "embedded":
+        if cfg == "embedded" and TREE["embedded_fresh"]:
             mops.append(["fresh"])
         if op in INIT_OPS:
             mops.append(["initialize", fail])
@@ -200,7 +205,9 @@ def ref_run(config, ops):
             intact = False
         elif op in OBS_OPS:
             reach = en and (intact or op not in VIA_AST)     # pyflyby's hook for this kind of cell is reachable
-            if op in INTERRUPT_CLASS:
+            if op == "run_sysexit" and not TREE["sysexit_interrupts"]:
+                pass        # a failed import: neither an auto-import nor an interrupt is demanded
+            elif op in INTERRUPT_CLASS:
                 intr = INTERRUPT_CLASS[op] if (reach and db_ok) else None
             else:
                 auto = reach and db_ok
@@ -356,6 +363,14 @@ class C14(Prop):
         r = self.lab.run("terminal", [dict(kind="c14", config="terminal", ops=fill_args(["enable", "disable"]))])[0]
         cl = r["steps"][-1]["mv"]["hl"]["input_transformers_cleanup"]
         self._variant = dict(resetDisabler=not any(e[0] == "pf" for e in cl))
+        # does SystemExit raised by a known import end the cell (old trees) or count as a failed import?
+        r = self.lab.run("terminal", [dict(kind="c14", config="terminal", ops=fill_args(["enable", "run_sysexit"]))])[0]
+        TREE["sysexit_interrupts"] = r["steps"][-1]["cell"]["err"] == "SystemExit"
+        # embedded shell: does a disable reach the importer that the enable before it used?
+        r = self.lab.run("embedded", [dict(kind="c14", config="embedded", ops=fill_args(["enable", "disable"]))])[0]
+        TREE["embedded_fresh"] = bool(r["steps"][-1]["mv"]["hl"]["ast_transformers"]
+                                      and any(e[0] == "pf" for e in r["steps"][-1]["mv"]["hl"]["ast_transformers"]))
+        self._variant.update(TREE)
 
     def _prefetch(self):
         self._ensure_ref()
@@ -734,7 +749,7 @@ class C14(Prop):
                 broken = not ref_run(cfg, case["ops"])[i][4]
                 if not broken and bool(m["work"]) != auto:
                     return f"step {i} {op}: auto-imported impl={auto} model work={m['work']}"
-            elif op in INTERRUPT_OPS:
+            elif op in INTERRUPT_OPS and (op != "run_sysexit" or TREE["sysexit_interrupts"]):
                 broken = not ref_run(cfg, case["ops"])[i][4]
                 hit = a["cell"]["err"] == INTERRUPT_CLASS[op]
                 if not broken and hit != (m["auto"] and bool(m["work"])):
